@@ -350,7 +350,13 @@ public:
 	{
 		if (!_sz)
 		{
-			_arr = new FieldTrait[_rsz];
+			if (!_arr || !_rsz)	// allocation was deferred, or nothing was reserved; otherwise reuse the array (clear() keeps it)
+			{
+				delete[] _arr;
+				if (!_rsz)
+					_rsz = 1;
+				_arr = new FieldTrait[_rsz];
+			}
 			memcpy(_arr, what, sizeof(FieldTrait));
 			++_sz;
 			return std::make_pair(_arr, true);
